@@ -27,15 +27,15 @@ fn no_false_negative<const BYTES: usize>() {
     leak(filter);
 }
 verif_proof! { [C39 C09]
-    #[kani::unwind(5)]
+    #[kani::unwind(18)]
     fn c39_filter_small() { no_false_negative::<16>(); }
 }
 verif_proof! { [C39 C09]
-    #[kani::unwind(5)]
+    #[kani::unwind(34)]
     fn c39_filter_medium() { no_false_negative::<32>(); }
 }
 verif_proof! { [C39 C09]
-    #[kani::unwind(5)]
+    #[kani::unwind(66)]
     fn c39_filter_large() { no_false_negative::<64>(); }
 }
 
